@@ -98,9 +98,25 @@ def run_case(c, rng):
                           'data': data.tolist(), 'num_connections': nconn.tolist(),
                           'got': np.asarray(indicator).tolist(), 'want': want.tolist()})
 
+    # every fourth case: the judged run is the *second* run_sim call of one simulator object, after reset_initial_values()
+    # (statuses at the end of the first run differ from the initial ones wherever a control acted)
+    sim_obj = None
+    if side.random() < 0.25:
+        import wntr
+        import warnings as _w
+        sim_obj = wntr.sim.WNTRSimulator(wn)
+        try:
+            with _w.catch_warnings():
+                _w.simplefilter('ignore')
+                sim_obj.run_sim()
+        except Exception:
+            sim_obj = None
+        wn.reset_initial_values()
+        if sim_obj is not None:
+            c.count('second_run_of_one_simulator_cases')
     core.check_for_isolated_junctions = spy
     try:
-        tr = simobs.run_wntr(wn, deep=True)
+        tr = simobs.run_wntr(wn, deep=True, sim=sim_obj)
     finally:
         core.check_for_isolated_junctions = orig
     for bad in calls:
